@@ -14,7 +14,7 @@ P = {
          "Coq proof (model = BIP39 spec, all inputs) + translator-regenerated tables/gates + model/impl/spec differential correspondence", "5 C01"),
  "C05": ("Theorems C05_decode / C05_injective / C05_new_injective (through the random path: sources whose first 4n/3 delivered bytes differ never share a mnemonic): the specification's independent decoder (Unicode-whitespace split, canonical index lookup, 11-bit concatenation, checksum dropped) applied to the model's output returns the original entropy, for all valid entropies and the ten languages; needs the computed well-formedness (2048 distinct, separator-free, UTF-8-valid words) of the tables read from the source. The implementation's output is decoded by the extracted decoder on every run, with single-bit flips.",
          "Coq proof (decode . encode = id, all inputs) + computed table facts + differential decode of implementation output", "5 C05"),
- "C09": ("Theorems C09_entropy_accept/_reject, C09_words_reject/_accept, C09_gates: the gate conditions are translated from the Go `if` conditions into Z -> bool functions on every run and proved (lia) to accept exactly 16..32 step 4 and 12..24 step 3 for every integer; the model returns the sentinel errors, leaves the read script untouched on rejection, and a non-empty mnemonic with nil error on acceptance. Differential: all lengths 0..600, nil, 2^k+-1; all counts in [-300,300] and around the extremes of int, with errors.Is and a read counter.",
+ "C09": ("Theorems C09_entropy_accept/_reject, C09_words_reject/_accept, C09_gates, C09_generators_agree (for every int n: NewMnemonic accepts n exactly when NewMnemonicByEntropy accepts a 4n/3-byte entropy): the gate conditions are translated from the Go `if` conditions into Z -> bool functions on every run and proved (lia) to accept exactly 16..32 step 4 and 12..24 step 3 for every integer; the model returns the sentinel errors, leaves the read script untouched on rejection, and a non-empty mnemonic with nil error on acceptance. Differential: all lengths 0..600, nil, 2^k+-1; all counts in [-300,300] and around the extremes of int, with errors.Is and a read counter.",
          "Coq proof over generated gate functions (all integers) + exhaustive small-range sweep of the implementation", "5 C09"),
  "C16": ("Theorems C16_names, C16_supported, C16_other, C16_ten_distinct: for every integer the model of the stringer code (name/index tables and guard regenerated from language_string.go, constants from lang.go) returns the declared identifier or Language(N), never panics; ten distinct non-empty names. Differential: implementation vs model vs spec on all values in a window, powers of two and random int64.",
          "Coq proof over generated stringer tables (all integers) + differential sweep", "5 C16"),
